@@ -69,6 +69,16 @@ CHECKS = {
         technique="mode B: KLEE-style concrete-heap symbolic interpreter over the MIR of the current tree (own engine, fv/modeb.py), symbolic keys/hashes, all feasible paths enumerated with z3 deciding every branch and every comparison with the reference; native (and Miri) replay of the solver's model",
         text="Sequential core of retain/retain_force in the interpreter with symbolic predicate answers, list and tree bins, both facades, plus the only single-thread route into the inspection-to-removal window: the predicate itself replaces the inspected entry's value through the real insert and then rejects it - retain must keep the replaced entry, retain_force must remove it. Every entry must be visited once with its own key instance and current value. Native replay.",
         note='Level other: interleavings with other threads are not explored; the window is entered re-entrantly from the predicate. Bounds: 3 entries in 2-bin tables, 10 in a tree bin.'),
+    'C07': dict(
+        level='model_checking', design='DESIGN.md §4 C07',
+        technique="mode B: KLEE-style concrete-heap symbolic interpreter over the MIR of the current tree (own engine, fv/modeb.py), symbolic keys/hashes, all feasible paths enumerated with z3 deciding every branch and every comparison with the reference; native replay of the solver's model; hand-built forwarding states with symbolic masks",
+        text='One thread: (a) the real iterator is created, advanced, the map is grown by 1-3 doublings / entries removed / a tree bin untreeified or split under the standing iterator, then drained - every key present and untouched throughout must be yielded exactly once, nothing may be yielded that was never in the map; (b) the traverser (NodeIter::next/push_state/recover_state from MIR) runs over three hand-built table generations (base length 2 and 4) for EVERY subset of already-forwarded bins the transfer discipline allows, i.e. the states concurrent helpers can leave between two next() calls, and must yield each key exactly once and terminate. Findings are replayed natively (public API, or an in-crate unit test for hand-built states).',
+        note='The memory-level race of next() with concurrent writers is outside (C15/seize). Bounds: base lengths 2 and 4, 3 generations, <= 2 nodes per bin, keys universe 3.'),
+    'C10': dict(
+        level='model_checking', design='DESIGN.md §4 C10',
+        technique='bit-precise symbolic execution of the MIR of resize_stamp/add_count/help_transfer/try_presize/transfer into z3 (all 31 legal lengths, cvc5 cross-check) + mode-B end-to-end resizes with symbolic keys; native replay',
+        text='Part 1: for every legal table length the stamp is negative after the shift, survives +2..+MAX_RESIZERS, differs from every other length in the high half; a resize is initiated with rs+2, helpers register with +1 and never once the finisher is chosen (rs+1) or the limit is reached; a leaving thread decrements by one and exactly the one that saw rs+2 finishes; strides are >= 16; the finisher publishes 0.75 of the new length for every old length. Part 3: in the concrete-heap interpreter tables of 2..64 bins grow by inserts/reserve with symbolic keys: exact doubling at exactly the threshold, placement, threshold, nothing left behind, drop(map) passes. ',
+        note='NOT decided: claiming/joining/leaving under real interleavings of several helpers (part 2 of the design was not built): overlap of generations under contention is outside this check (see DESIGN.md §7 finding F6 for what the mutation agents observed on the unchanged tree).'),
 }
 
 NOT_APPLICABLE = {
